@@ -293,3 +293,144 @@ package types
 //@ contract ConvertSessionTypeInitialToSessionType
 //@   ensures C16.convTop: result != nil && (exists m Modality :: unsetM(m) && conv(st, m, result))
 //@   safety C09
+
+// (b) inference: the first mode fixed by an annotation, a shift's target, or a named type's own inference
+//     (names already on the path are not followed again); Unset if nothing fixes a mode.
+
+//@ macro first2(a Modality, b Modality) Modality = ite(!unsetM(a), a, ite(!unsetM(b), b, a))
+
+// The inferred mode of a choice: the first branch whose inference is not Unset, the first branch's (Unset) result
+// if there is none. For a non-empty list exactly one value satisfies the two clauses.
+//@ spec inferChoice(bs []Option, D Set[string], V Arr[string]LabelledType, used Set[string]) Modality where
+//@    ((forall k int :: 0 <= k && k < len(bs) ==> unsetM(infer(bs[k].SessionType, D, V, used))) ==> result == infer(bs[0].SessionType, D, V, used)) &&
+//@    (forall k int :: 0 <= k && k < len(bs) && !unsetM(infer(bs[k].SessionType, D, V, used)) && (forall j int :: 0 <= j && j < k ==> unsetM(infer(bs[j].SessionType, D, V, used))) ==> result == infer(bs[k].SessionType, D, V, used))
+
+//@ spec infer(t SessionType, D Set[string], V Arr[string]LabelledType, used Set[string]) Modality =
+//@    ite(is(t, LabelType), ite(!unsetM(LabelType(t).Mode), LabelType(t).Mode,
+//@                              ite(D[LabelType(t).Label] && !used[LabelType(t).Label], infer(V[LabelType(t).Label].Type, D, V, add(used, LabelType(t).Label)), LabelType(t).Mode)),
+//@    ite(is(t, UnitType), UnitType(t).Mode,
+//@    ite(is(t, SendType), ite(!unsetM(SendType(t).Mode), SendType(t).Mode, first2(infer(SendType(t).Left, D, V, used), infer(SendType(t).Right, D, V, used))),
+//@    ite(is(t, ReceiveType), ite(!unsetM(ReceiveType(t).Mode), ReceiveType(t).Mode, first2(infer(ReceiveType(t).Left, D, V, used), infer(ReceiveType(t).Right, D, V, used))),
+//@    ite(is(t, SelectLabelType), ite(!unsetM(SelectLabelType(t).Mode), SelectLabelType(t).Mode, inferChoice(SelectLabelType(t).Branches, D, V, used)),
+//@    ite(is(t, BranchCaseType), ite(!unsetM(BranchCaseType(t).Mode), BranchCaseType(t).Mode, inferChoice(BranchCaseType(t).Branches, D, V, used)),
+//@    ite(is(t, UpType), UpType(t).To, DownType(t).To)))))))
+
+//@ contract commonMode
+//@   requires[C09] len(modes) >= 1
+//@   ensures C16.commonNonEmpty: len(modes) >= 1
+//@   ensures C16.commonNone: (forall k int :: 0 <= k && k < len(modes) ==> unsetM(modes[k])) ==> result == modes[0]
+//@   ensures C16.commonFirst: forall k int :: 0 <= k && k < len(modes) && !unsetM(modes[k]) && (forall j int :: 0 <= j && j < k ==> unsetM(modes[j])) ==> result == modes[k]
+//@   ensures C16.commonWitness: (forall k int :: 0 <= k && k < len(modes) ==> unsetM(modes[k])) ||
+//@        (exists k int :: 0 <= k && k < len(modes) && !unsetM(modes[k]) && result == modes[k] && (forall j int :: 0 <= j && j < k ==> unsetM(modes[j])))
+//@   loop 1 invariant (forall j int :: 0 <= j && j <= idx ==> unsetM(modes[j]))
+//@   safety C09
+
+//@ contract copyMap
+//@   ensures C16.copyMap: result != nil && fresh(result) && dom(result) == dom(orig) && (forall k string :: has(orig, k) ==> result[k] == orig[k])
+//@   loop 1 invariant copy != nil && dom(copy) == visited && (forall k string :: visited[k] ==> has(orig, k) && copy[k] == orig[k])
+//@   safety C09
+
+// the visited-names map is used as a set: every entry is true
+//@ macro allTrue(m map[string]bool) bool = forall k string :: has(m, k) ==> m[k]
+
+//@ contract interface SessionType.inferModality(self, env, usedLabels)
+//@   requires allTrue(usedLabels)
+//@   requires[C09] shapeOK(self) && usedLabels != nil
+//@   ensures C16.infer: result == infer(self, dom(env), vals(env), old(dom(usedLabels)))
+//@   safety C09
+
+//@ contract (*SelectLabelType).inferModality
+//@   loop 1 invariant len(commonModes) == idx + 1 && dom(usedLabels) == old(dom(usedLabels))
+//@   loop 1 invariant (forall k int :: 0 <= k && k <= idx ==> commonModes[k] == infer(q.Branches[k].SessionType, dom(labelledTypesEnv), vals(labelledTypesEnv), old(dom(usedLabels))))
+//@ contract (*BranchCaseType).inferModality
+//@   loop 1 invariant len(commonModes) == idx + 1 && dom(usedLabels) == old(dom(usedLabels))
+//@   loop 1 invariant (forall k int :: 0 <= k && k <= idx ==> commonModes[k] == infer(q.Branches[k].SessionType, dom(labelledTypesEnv), vals(labelledTypesEnv), old(dom(usedLabels))))
+
+// (c) filling in: a node without a mode takes the mode in force (a name: the mode of its definition), a node
+//     with a mode keeps it and puts it in force below; below a shift the shift's source mode is in force.
+//     topAssigned(t, m): the root node of t was treated that way with m in force.
+
+//@ macro filled(now Modality, before Modality, m Modality) bool = now == ite(unsetM(before), m, before)
+//@ macro topAssigned(t SessionType, m Modality, D Set[string], V Arr[string]LabelledType) bool =
+//@    (is(t, LabelType) ==> LabelType(t).Mode == ite(old(unsetM(LabelType(t).Mode)), ite(D[LabelType(t).Label], V[LabelType(t).Label].Mode, m), old(LabelType(t).Mode))) &&
+//@    (is(t, UnitType) ==> filled(UnitType(t).Mode, old(UnitType(t).Mode), m)) &&
+//@    (is(t, SendType) ==> filled(SendType(t).Mode, old(SendType(t).Mode), m)) &&
+//@    (is(t, ReceiveType) ==> filled(ReceiveType(t).Mode, old(ReceiveType(t).Mode), m)) &&
+//@    (is(t, SelectLabelType) ==> filled(SelectLabelType(t).Mode, old(SelectLabelType(t).Mode), m)) &&
+//@    (is(t, BranchCaseType) ==> filled(BranchCaseType(t).Mode, old(BranchCaseType(t).Mode), m))
+//@ macro inForce(before Modality, m Modality) Modality = ite(unsetM(before), m, before)
+//@ macro kidsAssigned(t SessionType, m Modality, D Set[string], V Arr[string]LabelledType) bool =
+//@    (is(t, SendType) ==> topAssigned(SendType(t).Left, inForce(old(SendType(t).Mode), m), D, V) && topAssigned(SendType(t).Right, inForce(old(SendType(t).Mode), m), D, V)) &&
+//@    (is(t, ReceiveType) ==> topAssigned(ReceiveType(t).Left, inForce(old(ReceiveType(t).Mode), m), D, V) && topAssigned(ReceiveType(t).Right, inForce(old(ReceiveType(t).Mode), m), D, V)) &&
+//@    (is(t, SelectLabelType) ==> (forall k int :: 0 <= k && k < len(SelectLabelType(t).Branches) ==> topAssigned(SelectLabelType(t).Branches[k].SessionType, inForce(old(SelectLabelType(t).Mode), m), D, V))) &&
+//@    (is(t, BranchCaseType) ==> (forall k int :: 0 <= k && k < len(BranchCaseType(t).Branches) ==> topAssigned(BranchCaseType(t).Branches[k].SessionType, inForce(old(BranchCaseType(t).Mode), m), D, V))) &&
+//@    (is(t, UpType) ==> topAssigned(UpType(t).Continuation, UpType(t).From, D, V)) &&
+//@    (is(t, DownType) ==> topAssigned(DownType(t).Continuation, DownType(t).From, D, V))
+
+// a mode that is set is never overwritten (stated per mode field of the six node kinds)
+//@ macro modesKept() bool = (forall x1 *LabelType :: !unsetM(old(x1.Mode)) ==> x1.Mode == old(x1.Mode)) && (forall x2 *UnitType :: !unsetM(old(x2.Mode)) ==> x2.Mode == old(x2.Mode)) && (forall x3 *SendType :: !unsetM(old(x3.Mode)) ==> x3.Mode == old(x3.Mode)) && (forall x4 *ReceiveType :: !unsetM(old(x4.Mode)) ==> x4.Mode == old(x4.Mode)) && (forall x5 *SelectLabelType :: !unsetM(old(x5.Mode)) ==> x5.Mode == old(x5.Mode)) && (forall x6 *BranchCaseType :: !unsetM(old(x6.Mode)) ==> x6.Mode == old(x6.Mode))
+
+// Type terms are trees: this is expressed by a depth-first interval numbering (lo, hi) under which the nodes of
+// a subtree are exactly the nodes numbered inside the interval of its root, and sibling subtrees have disjoint
+// intervals. (Every forest has such a numbering; it is assumed of what the parser builds.)
+//@ spec lo(t SessionType) int
+//@ spec hi(t SessionType) int
+//@ macro inside(c SessionType, t SessionType) bool = c != nil && lo(t) < lo(c) && lo(c) <= hi(c) && hi(c) <= hi(t)
+//@ macro kidOK(c SessionType, t SessionType) bool = inside(c, t) && treeOK(c)
+//@ spec treeOK(t SessionType) bool = t != nil && lo(t) <= hi(t) &&
+//@    (is(t, SendType) ==> kidOK(SendType(t).Left, t) && kidOK(SendType(t).Right, t) && hi(SendType(t).Left) < lo(SendType(t).Right)) &&
+//@    (is(t, ReceiveType) ==> kidOK(ReceiveType(t).Left, t) && kidOK(ReceiveType(t).Right, t) && hi(ReceiveType(t).Left) < lo(ReceiveType(t).Right)) &&
+//@    (is(t, SelectLabelType) ==> optionsTree(SelectLabelType(t).Branches, t)) &&
+//@    (is(t, BranchCaseType) ==> optionsTree(BranchCaseType(t).Branches, t)) &&
+//@    (is(t, UpType) ==> kidOK(UpType(t).Continuation, t)) &&
+//@    (is(t, DownType) ==> kidOK(DownType(t).Continuation, t))
+//@ macro optionsTree(bs []Option, t SessionType) bool = (forall k int :: 0 <= k && k < len(bs) ==> kidOK(bs[k].SessionType, t)) &&
+//@        (forall j int, k int :: 0 <= j && j < k && k < len(bs) ==> hi(bs[j].SessionType) < lo(bs[k].SessionType))
+
+// only mode fields of nodes inside the subtree of t are written
+//@ macro out(x SessionType, t SessionType) bool = !(lo(t) <= lo(x) && lo(x) <= hi(t))
+//@ macro modesOutsideKept(t SessionType) bool =
+//@    (forall y1 *LabelType :: out(SessionType(y1), t) ==> y1.Mode == old(y1.Mode)) && (forall y2 *UnitType :: out(SessionType(y2), t) ==> y2.Mode == old(y2.Mode)) &&
+//@    (forall y3 *SendType :: out(SessionType(y3), t) ==> y3.Mode == old(y3.Mode)) && (forall y4 *ReceiveType :: out(SessionType(y4), t) ==> y4.Mode == old(y4.Mode)) &&
+//@    (forall y5 *SelectLabelType :: out(SessionType(y5), t) ==> y5.Mode == old(y5.Mode)) && (forall y6 *BranchCaseType :: out(SessionType(y6), t) ==> y6.Mode == old(y6.Mode))
+
+//@ contract interface SessionType.assignUnsetModalities(self, env, cur)
+//@   requires !unsetM(cur)
+//@   requires shiftSourcesSet(self) && treeOK(self)
+//@   requires[C09] shapeOK(self)
+//@   ensures C16.assignOwn: topAssigned(self, cur, dom(env), vals(env))
+//@   ensures C16.assignKids: kidsAssigned(self, cur, dom(env), vals(env))
+//@   ensures C16.assignKept: modesKept()
+//@   ensures C16.assignFrame: modesOutsideKept(self)
+//@   decreases[C09] size(self)
+//@   safety C09
+
+// a shift's source mode is written by the parser and is never the Unset placeholder
+//@ spec shiftSourcesSet(t SessionType) bool =
+//@    (is(t, SendType) ==> shiftSourcesSet(SendType(t).Left) && shiftSourcesSet(SendType(t).Right)) &&
+//@    (is(t, ReceiveType) ==> shiftSourcesSet(ReceiveType(t).Left) && shiftSourcesSet(ReceiveType(t).Right)) &&
+//@    (is(t, SelectLabelType) ==> (forall k int :: 0 <= k && k < len(SelectLabelType(t).Branches) ==> shiftSourcesSet(SelectLabelType(t).Branches[k].SessionType))) &&
+//@    (is(t, BranchCaseType) ==> (forall k int :: 0 <= k && k < len(BranchCaseType(t).Branches) ==> shiftSourcesSet(BranchCaseType(t).Branches[k].SessionType))) &&
+//@    (is(t, UpType) ==> UpType(t).From != nil && !unsetM(UpType(t).From) && shiftSourcesSet(UpType(t).Continuation)) &&
+//@    (is(t, DownType) ==> DownType(t).From != nil && !unsetM(DownType(t).From) && shiftSourcesSet(DownType(t).Continuation))
+
+// loop bookkeeping for the two choice constructors: branches are visited left to right, so everything numbered
+// after the last visited branch is still untouched
+//@ macro visitedUpTo(bs []Option, idx int, t SessionType) int = ite(idx < 0, lo(t), hi(bs[idx].SessionType))
+//@ macro modesBeyondKept(b int) bool =
+//@    (forall z1 *LabelType :: lo(SessionType(z1)) > b ==> z1.Mode == old(z1.Mode)) && (forall z2 *UnitType :: lo(SessionType(z2)) > b ==> z2.Mode == old(z2.Mode)) &&
+//@    (forall z3 *SendType :: lo(SessionType(z3)) > b ==> z3.Mode == old(z3.Mode)) && (forall z4 *ReceiveType :: lo(SessionType(z4)) > b ==> z4.Mode == old(z4.Mode)) &&
+//@    (forall z5 *SelectLabelType :: lo(SessionType(z5)) > b ==> z5.Mode == old(z5.Mode)) && (forall z6 *BranchCaseType :: lo(SessionType(z6)) > b ==> z6.Mode == old(z6.Mode))
+
+//@ contract (*SelectLabelType).assignUnsetModalities
+//@   loop 1 invariant modesKept() && modesOutsideKept(SessionType(q))
+//@   loop 1 invariant modesBeyondKept(visitedUpTo(q.Branches, idx, SessionType(q)))
+//@   loop 1 invariant (forall k int :: 0 <= k && k <= idx ==> hi(q.Branches[k].SessionType) <= visitedUpTo(q.Branches, idx, SessionType(q)))
+//@   loop 1 invariant q.Mode == inForce(old(q.Mode), currentMode)
+//@   loop 1 invariant (forall k int :: 0 <= k && k <= idx ==> topAssigned(q.Branches[k].SessionType, inForce(old(q.Mode), currentMode), dom(labelledTypesEnv), vals(labelledTypesEnv)))
+//@ contract (*BranchCaseType).assignUnsetModalities
+//@   loop 1 invariant modesKept() && modesOutsideKept(SessionType(q))
+//@   loop 1 invariant modesBeyondKept(visitedUpTo(q.Branches, idx, SessionType(q)))
+//@   loop 1 invariant (forall k int :: 0 <= k && k <= idx ==> hi(q.Branches[k].SessionType) <= visitedUpTo(q.Branches, idx, SessionType(q)))
+//@   loop 1 invariant q.Mode == inForce(old(q.Mode), currentMode)
+//@   loop 1 invariant (forall k int :: 0 <= k && k <= idx ==> topAssigned(q.Branches[k].SessionType, inForce(old(q.Mode), currentMode), dom(labelledTypesEnv), vals(labelledTypesEnv)))
